@@ -269,6 +269,36 @@ def _prefix_lookup(ctx, words):
         if lk.get(w[:4]) != i:
             return ctx.bad(spec, "the four-letter prefix %r of word %r (index %d) is looked up as %r: abbreviated mnemonics decode to other entropy or fail" % (
                 w[:4], w, i, lk.get(w[:4])), fn, mod, key="prefix-lookup")
+    # normalize() turns every accepted spelling of a word -- the word itself, its four-letter prefix, upper case -- into the word (the text
+    # that enters the seed derivation), and an abbreviated phrase decodes to the same entropy as the full one
+    from sa.cells import Raised as _R
+    for i, w in enumerate(words):
+        for spelled in (w, w[:4], w.upper()):
+            try:
+                r = Evaluator(ctx.repo, externals=ext).call("mnemonic:WordList.normalize", [spelled], self_obj=me)
+            except _R as x:
+                r = "raises %s" % x.name
+            except Undecided as u:
+                return ctx.err(spec, "WordList.normalize not evaluable: %s" % u, fn, mod)
+            if r != w:
+                return ctx.bad("mnemonic:WordList.normalize", "normalize(%r) gives %r, not the word %r: the text that enters PBKDF2 is not the full BIP39 word, so an abbreviated (or "
+                                                              "upper-case) mnemonic derives another seed" % (spelled, r, w), fn, mod, key="prefix-lookup")
+    import hashlib as _hl
+    Hf = lambda b: _hl.sha256(b"free-hash:" + bytes(b)).digest()
+    ent = bytes(range(3, 19))
+    total = (int.from_bytes(ent, "big") << 4) | (Hf(ent)[0] >> 4)
+    idx = [(total >> (11 * (11 - j))) & 0x7FF for j in range(12)]
+    for style, phrase in (("four-letter prefixes", [words[j][:4] for j in idx]), ("full words", [words[j] for j in idx])):
+        try:
+            r = Evaluator(ctx.repo, externals=dict(ext, BIP39=me), opaque=lambda name, args, kw: Hf(args[0]) if name == "sha256" else NotImplemented,
+                          max_steps=400000).call("mnemonic:mnemonic_to_bytes", [" ".join(phrase)])
+        except _R as x:
+            r = "raises %s" % x.name
+        except Undecided as u:
+            return ctx.err(spec, "mnemonic_to_bytes not evaluable on the real word list: %s" % u, fn, mod)
+        if r != ent:
+            return ctx.bad("mnemonic:mnemonic_to_bytes", "a valid 12-word phrase written with %s %s instead of decoding to its entropy" % (
+                style, r if isinstance(r, str) else "decodes to other bytes"), fn, mod, key="prefix-lookup")
     extra = sorted(k for k in lk if k not in set(words) and k not in {w[:4] for w in words})
     if extra:
         return ctx.bad(spec, "the lookup table accepts %d strings that are neither a word nor a four-letter prefix (e.g. %r)" % (len(extra), extra[0]), fn, mod, key="prefix-lookup")
